@@ -28,6 +28,8 @@ func genSync(o *hx.Out, r *hx.Rng, n int, long int) {
 		{N: 4, Prefix: 3, Own: 2, Peer: 4, HCB: "honest", Corrupt: -1, ErrAfter: -1},
 		// invalid block after one applied block: restore + ban (the repaired restoreBlocks)
 		{N: 4, Prefix: 3, Own: 3, Peer: 5, HCB: "honest", Corrupt: 2, CorruptKind: "sig", ErrAfter: -1},
+		// the valid blocks applied before the invalid one FINALIZE a height above the common block: no restore is possible
+		{N: 4, Prefix: 14, Own: 1, Peer: 8, Full: true, HCB: "honest", Corrupt: 6, CorruptKind: "sig", ErrAfter: -1},
 		// first block invalid
 		{N: 4, Prefix: 2, Own: 2, Peer: 4, HCB: "honest", Corrupt: 0, CorruptKind: "sig", ErrAfter: -1},
 		// honest better peer far ahead: block sync
@@ -89,7 +91,7 @@ func genSync(o *hx.Out, r *hx.Rng, n int, long int) {
 		if s.Full {
 			s.Prefix += 6
 			s.Own = r.Intn(2)
-			s.Peer = s.Own + 1 + r.Intn(3)
+			s.Peer = s.Own + 1 + r.Intn(7) // up to 8 blocks: enough valid ones to finalize past the common block
 		}
 		switch r.Intn(10) {
 		case 0:
